@@ -340,6 +340,12 @@ func runHostileCase(hc *HostileCase, tr *Tr) error {
 			rootNode = basicnode.NewString("a string")
 		case "int":
 			rootNode = basicnode.NewInt(7)
+		case "null":
+			rootNode = datamodel.Null
+		case "bool":
+			rootNode = basicnode.NewBool(true)
+		case "float":
+			rootNode = basicnode.NewFloat(1.5)
 		case "link":
 			rootNode = basicnode.NewLink(cidlink.Link{Cid: rawCid([]byte("x"), cid.Raw)})
 		case "map":
